@@ -65,7 +65,9 @@ def run(ctx):
                  params={"BOTH": ctx.pick(0, 1)})
     frecs = vf.read_ndjson(of2)
     fdirs = [x for x in frecs if x["kind"] == "faultdir"]
-    if len(fdirs) < len(faults) * 2 // 3:
+    nofault = [x for x in frecs if x["kind"] == "nofault"]
+    frecs = [x for x in frecs if x["kind"] != "nofault"]
+    if len(fdirs) < len(faults) * 2 // 3 and not nofault:
         raise vf.Infra("harness replayed %d of %d write faults" % (len(fdirs), len(faults)))
     recs = vf.read_ndjson(of) + frecs
     meta = [x for x in recs if x["kind"] == "meta"]
@@ -155,6 +157,8 @@ def run(ctx):
             ctx.violation(key, "run of stream %s: monitor %s is false: list %s spans %s get %s" % (
                 rec["stream"], key["monitor"], rec["obs"]["listStatus"], rec["obs"]["spans"], rec["obs"]["getStatus"]))
 
+    if nofault and not ctx.violations:
+        raise vf.Infra("write faults could not be placed (%s) although no formula failed" % nofault[0]["reason"])
     if nocrash and not ctx.violations:
         raise vf.Infra("crash points could not be enumerated (%s) although no formula failed" % nocrash[0]["reason"])
     for x in nocrash:
